@@ -140,10 +140,12 @@ func (x *xmlParser) Pull() (node.Node, bool, error) {
 			target: n.Target,
 			value:  string(n.Inst),
 		}, false, nil
+	case xml.EndElement:
+		return nil, true, nil
 	}
 
-	//case xml.EndElement:
-	return nil, true, nil
+	// Directives (e.g. <!DOCTYPE ...>) are not nodes; skip them.
+	return x.Pull()
 }
 
 func createXmlNamespaces(attrs []xml.Attr) []XmlNamespace {
